@@ -81,6 +81,7 @@ fn main() {
         "C09" => drive(&props::breaker_conc::C09, &opts),
         "C05" => drive(&props::retry::C05, &opts),
         "C06" => drive(&props::timelimiter::C06, &opts),
+        "C14" => drive(&props::backoff::C14, &opts),
         "C02" => drive(&props::ratelimiter::C02, &opts),
         "C15" => drive(&props::ratelimiter::C15, &opts),
         _ => {
